@@ -481,10 +481,17 @@ def render_geom(ctx):
              "vbar-solid": "followed by a solid column (rows 1..h)",
              "bottom-solid": "solid bottom row h-1", "top-clock": "clock top row (even columns)", "left-solid": "solid left column",
              "right-clock": "clock right column (odd rows)"}
-    for k, wtxt in names.items():
-        ob("draw:" + k, k in found, "bitmap() draws " + wtxt)
     high_stores = [1 for ctxs, a in stores if a[2][0] == "const" and a[2][1].endswith("Bit::HIGH")]
-    ob("draw:count", len(high_stores) == 8, "bitmap() has exactly these eight pattern stores (%d found)" % len(high_stores))
+    shape_ok = all(k in found for k in names) and len(high_stores) == 8
+    exec_ok = exec_det = None
+    if not shape_ok or ctx.tier == "thorough":
+        # the pattern stores are not (all) in a recognised indexed-store shape - or this is the thorough tier: bitmap() is
+        # rendered symbolically for all 48 sizes instead (one run per size decides every content)
+        exec_ok, exec_det = render_exec(ctx)
+        ob("draw:exec", exec_ok, "bitmap() rendered symbolically for every symbol size: " + str(exec_det))
+    for k, wtxt in names.items():
+        ob("draw:" + k, k in found or bool(exec_ok), "bitmap() draws " + wtxt + ("" if k in found else " (store shape not recognised; decided by the symbolic rendering)"))
+    ob("draw:count", len(high_stores) == 8 or bool(exec_ok), "bitmap() has exactly these eight pattern stores (%d found%s)" % (len(high_stores), "" if len(high_stores) == 8 else "; decided by the symbolic rendering"))
     # data copy
     copy = [s for s in sts if s[0] == "for" and any(x[0] == "field" and x[2] == "entries" for x in T.sx_walk(s[2]))]
     ok = False
@@ -516,3 +523,68 @@ def render_geom(ctx):
     ob("data-copy", ok, "content module b_i goes to row b_i / width, column b_i % width, each shifted by 1 + 2 * (index / region size)", det)
     obs += floor(obs, r, 16, "renderer geometry obligations")
     return obs
+
+
+# ---- RENDER-GEOM by symbolic execution (fallback when the store shapes are not recognised) --------------------------
+
+def render_exec(ctx, sizes=None):
+    """bitmap() folded for every symbol size with opaque content modules e0, e1, ..: the resulting pixel vector must be the
+    ISO finder / alignment geometry (solid left and bottom bar and clock top and right track of every region) around the
+    content modules in row-major order.  The function does not branch on module values, so one run per size decides all
+    contents of that size.  Returns (ok, detail)."""
+    f = ctx.facts()
+    fn = "placement::MatrixMap::<M>::bitmap"
+    b = f.thir.get(fn)
+    if b is None:
+        return False, "bitmap() not found"
+    from . import p_symbols
+    t = p_symbols.tables(ctx)
+    selfn = b["params"][0]["pat"]["name"]
+    n = 0
+    for v in (sizes or t["variants"]):
+        su = t["setup"].get(v)
+        if not isinstance(su, dict):
+            return False, "no block setup for %s" % v
+        ev, eh = su["extra_vertical_alignments"], su["extra_horizontal_alignments"]
+        cw = su["width"] - 2 - 2 * ev
+        ch = su["height"] - 2 - 2 * eh
+        me = {"__adt__": "placement::MatrixMap", "__variant__": "MatrixMap"}
+        fields = [("entries", [T.Token("e%d" % k) for k in range(cw * ch)]), ("width", cw), ("height", ch),
+                  ("extra_vertical_alignments", ev), ("extra_horizontal_alignments", eh), ("has_padding", bool(t["padding"].get(v)))]
+        for i, (k, val) in enumerate(fields):
+            me[k] = val
+            me["#%d" % i] = val
+        fo = T.Folder(f, env={selfn: me}, effects=True, local_calls=2)
+        fo.views = True
+        fo.opaque_consts = True
+        fo.max_iter = 40000
+        try:
+            res = fo.run(b["body"])
+        except T.Trap as ex:
+            return False, "%s: bitmap() traps: %s" % (v, ex)
+        except T.Undecidable as ex:
+            return False, "%s: bitmap() does not fold: %s" % (v, ex)
+        if not (isinstance(res, dict) and isinstance(res.get("bits"), list)):
+            return False, "%s: bitmap() does not return a Bitmap value" % v
+        W, H = su["width"], su["height"]
+        bits = [x.load() if isinstance(x, T.Ref) else x for x in res["bits"]]
+        if res.get("width") != W or len(bits) != W * H:
+            return False, "%s: bitmap is %s wide with %d pixels, expected %d x %d" % (v, res.get("width"), len(bits), W, H)
+        bh, bw = ch // (eh + 1), cw // (ev + 1)
+        for r in range(H):
+            lr = r % (bh + 2)
+            for c in range(W):
+                lc = c % (bw + 2)
+                if lc == 0 or lr == bh + 1:
+                    want = "HIGH"
+                elif lr == 0:
+                    want = "HIGH" if c % 2 == 0 else "LOW"
+                elif lc == bw + 1:
+                    want = "HIGH" if r % 2 == 1 else "LOW"
+                else:
+                    want = "e%d" % ((r - 1 - 2 * (r // (bh + 2))) * cw + (c - 1 - 2 * (c // (bw + 2))))
+                got = bits[r * W + c]
+                if str(got) != want:
+                    return False, "%s: pixel (%d, %d) is %s, the symbol geometry says %s" % (v, r, c, got, want)
+        n += 1
+    return True, "%d symbol sizes rendered symbolically: every finder / alignment / content pixel in place" % n
